@@ -365,3 +365,52 @@ Theorem low_index_multiples_refuted :
     (complete_model [] LowIndex.c0 ([112] :: LowIndex.line ++ [[45; 45]]) 4) = true /\
   LowIndex.kind_of (parse_top LowIndex.c0 ([112] :: LowIndex.line ++ [LowIndex.ddw LowIndex.w_pf])) = Some EUnknownArgument.
 Proof. vm_compute. repeat split; reflexivity. Qed.
+
+(** * Findings C18-infer-subcommands and C18-infer-long-args (not repaired: known findings): the engine knows neither
+      [Command::infer_subcommands] nor [Command::infer_long_args]
+
+    (1) `p(--pf; infer_subcommands) -> sub(--so)`: the parser reads `su` as `sub` (a unique prefix) and accepts `p su`; for
+    the engine `su` is a plain word, it stays at `p` and offers `--pf`; `p su --pf` is UnknownArgument.
+    (2) `p(--pf; --option <v>; infer_long_args) -> sub(--so)`: the parser reads `--opti` as `--option`, which takes `sub` as
+    its value: `p --opti sub` is accepted at `p`; the engine does not recognise `--opti` (nothing is pending), descends on
+    `sub` and offers `--so`; `p --opti sub --so` is UnknownArgument.  Same on the real crate
+    (corpus/C18/accept.inferred-names.cases). *)
+Module Infer.
+Definition w_pf : bytes := [112; 102].
+Definition w_sub : bytes := [115; 117; 98].
+Definition w_so : bytes := [115; 111].
+Definition w_option : bytes := [111; 112; 116; 105; 111; 110].
+Definition ddw (s : bytes) : bytes := 45 :: 45 :: s.
+Definition sub : cmd :=
+  (cmd_new w_sub) <| c_args := [ (arg_new w_so) <| a_long := Some w_so |> <| a_action := Some ASetTrue |> ] |>.
+Definition c1 : cmd :=
+  (cmd_new [112]) <| c_set := settings_none <| s_infer_sub := true |> |>
+    <| c_args := [ (arg_new w_pf) <| a_long := Some w_pf |> <| a_action := Some ASetTrue |> ] |> <| c_subs := [ sub ] |>.
+Definition c2 : cmd :=
+  (cmd_new [112]) <| c_set := settings_none <| s_infer_long := true |> |>
+    <| c_args := [ (arg_new w_pf) <| a_long := Some w_pf |> <| a_action := Some ASetTrue |>;
+                   (arg_new w_option) <| a_long := Some w_option |> <| a_action := Some ASet |> ] |> <| c_subs := [ sub ] |>.
+Definition su : bytes := [115; 117].
+Definition opti : bytes := ddw [111; 112; 116; 105].
+Definition has_cand (v : bytes) (i : cid) (r : cres) : bool :=
+  match r with COk l => existsb (fun cd => beq (cd_value cd) v && opt_cid_eqb (cd_id cd) (Some i)) l | _ => false end.
+Definition level_at (c : cmd) (args : list bytes) (i : N) : option bytes :=
+  match build_full (build_fuel c) c with
+  | BOk b => match start_walk b args i with WAt _ cur _ ValueDone false _ => Some (c_name cur) | _ => None end
+  | _ => None end.
+Definition kind_of (o : outcome) : option ekind := match o with OErr e => Some (e_kind e) | _ => None end.
+Definition chain_of (o : outcome) : option (list bytes) := match o with OOk m => Some (Globals.chain m) | _ => None end.
+End Infer.
+
+Theorem inferred_names_refuted :
+  (* infer_subcommands *)
+  Infer.chain_of (parse_top Infer.c1 [[112]; Infer.su]) = Some [Infer.w_sub] /\
+  Infer.level_at Infer.c1 [[112]; Infer.su; [45; 45]] 2 = Some [112] /\
+  Infer.has_cand (Infer.ddw Infer.w_pf) (IdArg Infer.w_pf) (complete_model [] Infer.c1 [[112]; Infer.su; [45; 45]] 2) = true /\
+  Infer.kind_of (parse_top Infer.c1 [[112]; Infer.su; Infer.ddw Infer.w_pf]) = Some EUnknownArgument /\
+  (* infer_long_args *)
+  Infer.chain_of (parse_top Infer.c2 [[112]; Infer.opti; Infer.w_sub]) = Some [] /\
+  Infer.level_at Infer.c2 [[112]; Infer.opti; Infer.w_sub; [45; 45]] 3 = Some Infer.w_sub /\
+  Infer.has_cand (Infer.ddw Infer.w_so) (IdArg Infer.w_so) (complete_model [] Infer.c2 [[112]; Infer.opti; Infer.w_sub; [45; 45]] 3) = true /\
+  Infer.kind_of (parse_top Infer.c2 [[112]; Infer.opti; Infer.w_sub; Infer.ddw Infer.w_so]) = Some EUnknownArgument.
+Proof. vm_compute. repeat split; reflexivity. Qed.
